@@ -457,7 +457,8 @@ def run_sched(first, steps, flagged):
         w.spawn(pid)
     out = {}
     with simk.installed(k):
-        list(psutil.process_iter())
+        orig = {p_.pid: p_ for p_ in psutil.process_iter()}
+        objs_seen = {0: [], 1: []}
         if flagged:
             stale = psutil._pmap.get(history.PID_POOL[0])
             if stale is None:
@@ -480,7 +481,9 @@ def run_sched(first, steps, flagged):
                 if flagged == 2 and i == 1:
                     out[i] = stale1.is_running()
                 else:
-                    out[i] = [p.pid for p in psutil.process_iter()]
+                    seen = list(psutil.process_iter())
+                    objs_seen[i] = seen
+                    out[i] = [p.pid for p in seen]
             return run
 
         try:
@@ -519,6 +522,17 @@ def run_sched(first, steps, flagged):
             missing = set(listing) - set(got)
             if missing - ({history.PID_POOL[0]} if flagged else set()):
                 raise Violation("concurrent-pass-missing", f"thread {i} yielded {got}, listed {listing}")
+        if not flagged:
+            # every PID stayed listed and nothing was found recycled: both
+            # threads must have been given the very objects cached before
+            for i in (0, 1):
+                for o in objs_seen[i]:
+                    if orig.get(o.pid) is not o:
+                        raise Violation(
+                            "same-object",
+                            f"two threads iterating at once (thread {first} pre-empted after {steps} lines): "
+                            f"thread {i} was given a new object for PID {o.pid}, which stayed listed all along; "
+                            f"sites {sites}")
         a = {p.pid: p for p in psutil.process_iter()}
         b = {p.pid: p for p in psutil.process_iter()}
         if any(a[pid] is not b[pid] for pid in b if pid in a):
@@ -526,7 +540,7 @@ def run_sched(first, steps, flagged):
 
 
 def sched_tier(tier, seed, stats):
-    bound = 30 if tier == "quick" else 250
+    bound = 110 if tier == "quick" else 250
     n = 0
     for flagged in (False, True, 2):
         for first in (0, 1):
